@@ -65,7 +65,7 @@ NoEv == [t |-> 0, k |-> "", site |-> "", mo |-> "", loc |-> "", i |-> 0, v |-> 0
 
 L0 == [opi |-> 1, nexe |-> 0, op |-> "", item |-> 0, res |-> 0, failed |-> FALSE, stage |-> "wait",
        tkt |-> 0, seen |-> 0, cret |-> "", base |-> 0, n |-> 0, lim |-> 0, second |-> FALSE,
-       jset |-> {}, jown |-> {}]
+       jset |-> {}, jown |-> {}, jfly |-> {}]
 
 H0 == [called |-> {}, returned |-> {}, sig |-> {}, cons |-> {}, consEnd |-> {}, inCons |-> {},
        unrec |-> FALSE, refusedEver |-> FALSE, natt |-> 0, nspawn |-> 0, bad |-> ""]
@@ -142,7 +142,8 @@ Call(t) ==
         /\ SetL(t, [L[t] EXCEPT !.op = op, !.item = item, !.res = 0,
                                 !.nexe = IF op = "e" THEN @ + 1 ELSE @,
                                 !.jset = IF op = "j" THEN before ELSE {},
-                                !.jown = IF op = "j" THEN {x \in before : t = 0 \/ Owner(x) = t} ELSE {}])
+                                !.jown = IF op = "j" THEN {x \in before : t = 0 \/ Owner(x) = t} ELSE {},
+                                !.jfly = IF op = "j" THEN H.called \ H.returned ELSE {}])
         /\ H' = [H EXCEPT !.called = IF op = "e" THEN @ \cup {item} ELSE @]
         /\ ev' = [NoEv EXCEPT !.t = t, !.k = "call", !.op = op, !.item = item]
   /\ UNCHANGED <<cfg, ms, Q>>
@@ -229,7 +230,7 @@ ScSub(t) ==
         /\ IF refuse
            THEN /\ H' = [H EXCEPT !.natt = att, !.unrec = TRUE, !.refusedEver = TRUE]
                 \* a join overlapping a refused launch is no longer judged
-                /\ L' = [x \in DOMAIN L |-> [L[x] EXCEPT !.jset = {}, !.jown = {}]]
+                /\ L' = [x \in DOMAIN L |-> [L[x] EXCEPT !.jset = {}, !.jown = {}, !.jfly = {}]]
                 /\ Goto(t, "sc_cas")
                 /\ UNCHANGED ms
            ELSE IF cfg.mode = "i"
@@ -402,10 +403,18 @@ NoStranding ==
   (LastVal(ms, EvLoc) = 0 /\ ConsumerActive = {} /\ ~H.unrec) =>
      /\ \A j \in 1..Q.head : Q.tk[j] \in H.consEnd
      /\ Q.head < Len(Q.tk) => Q.tk[Q.head + 1] \notin H.sig
-\* join() returns only after everything submitted before it was consumed
+\* join() returns only after everything submitted before it was consumed -- the clause as the property
+\* states it.  (Finding C16_join_behind_inflight_push: it does NOT hold when another execute() that took
+\* an earlier ticket of the inner queue is still in flight: the consumer's poll stops at the unpublished
+\* ticket, the counter goes back to 0 and join() returns although a submitted item is still queued.)
 JoinReturnsAfterConsumed == \A t \in 0..P : (pc[t] = "ret" /\ L[t].op = "j") => L[t].jset \subseteq H.consEnd
+\* the same clause outside that witness class: no execute() that was in flight when join() was called
+\* is still undelivered
+JoinReturnsAfterConsumedNoInflight ==
+  \A t \in 0..P : (pc[t] = "ret" /\ L[t].op = "j" /\ L[t].jfly \subseteq H.consEnd) => L[t].jset \subseteq H.consEnd
 \* the part of it that does not rest on real-time order between threads (meaningful with Stale = TRUE)
-JoinOwnAfterConsumed == \A t \in 0..P : (pc[t] = "ret" /\ L[t].op = "j") => L[t].jown \subseteq H.consEnd
+JoinOwnAfterConsumed ==
+  \A t \in 0..P : (pc[t] = "ret" /\ L[t].op = "j" /\ L[t].jfly \subseteq H.consEnd) => L[t].jown \subseteq H.consEnd
 \* safety form of JoinReturns / RecoveryAfterRefusal / no deadlock: when only joiners and blocked
 \* pushers are left, the counter is 0 (the joiners leave) and nobody is blocked
 Blocked(t) == pc[t] = "p_fill" /\ ~SlotFree(t)
